@@ -23,13 +23,21 @@ inline void bezout(int64_t a, int64_t b, int64_t& u, int64_t& v) {
   v = x0; u = -y0;
 }
 
-// classifier predicate: some segment of the path passes within one unit of a corner of R
+// classifier predicate of the known defect "origin vertex": some segment of the path passes within one unit of a
+// corner of R without passing through it exactly, and reaches at least 2^26 away from that corner (so that the
+// library's double-precision cross products about the corner, of magnitude >= 2^53, are rounded)
 inline bool passes_near_corner(const Path64& p, bool closed, const RBox& R) {
   size_t n = p.size(); if (n < 2) return false;
   size_t m = closed ? n : n - 1;
   const Point64 cs[4] = { Point64(R.l, R.t), Point64(R.r, R.t), Point64(R.r, R.b), Point64(R.l, R.b) };
-  for (size_t i = 0; i < m; ++i) for (int k = 0; k < 4; ++k)
-    if (dist_pt_seg(p[i], p[(i + 1) % n], cs[k]) <= 1.0L) return true;
+  const int64_t far = (int64_t)1 << 26;
+  auto absd = [](int64_t a, int64_t b) { return a > b ? a - b : b - a; };
+  for (size_t i = 0; i < m; ++i) for (int k = 0; k < 4; ++k) {
+    const Point64& a = p[i]; const Point64& b = p[(i + 1) % n]; const Point64& c = cs[k];
+    if (cross(a, b, c) == 0) continue;
+    if (std::max(std::max(absd(a.x, c.x), absd(a.y, c.y)), std::max(absd(b.x, c.x), absd(b.y, c.y))) < far) continue;
+    if (dist_pt_seg(a, b, c) <= 1.0L) return true;
+  }
   return false;
 }
 
